@@ -5,6 +5,7 @@ registration slips (x/y swapped origin, exclusive upper index, cutout-relative v
 reported as absolute) must be flagged, the footprint rule must drop exactly the rows
 whose footprint leaves the frame, and the scenes must be deterministic."""
 import collections
+import math
 import os
 import sys
 
@@ -35,7 +36,7 @@ def toy(S, T, bug=None):
     rows = collections.defaultdict(list)
     for lab in range(1, seg.max() + 1):
         ys, xs = np.nonzero(seg == lab)
-        w = np.clip(data[ys, xs], 0, None)
+        w = np.abs(data[ys, xs])             # (the scenes contain a negative segment)
         xc, yc = (w * xs).sum() / w.sum(), (w * ys).sum() / w.sum()
         if bug == 'origin-swapped':          # cutout-relative centroid + (ymin, xmin)
             xc, yc = xc - xs.min() + ys.min(), yc - ys.min() + xs.min()
@@ -50,7 +51,15 @@ def toy(S, T, bug=None):
         rows['bbox_ymax'].append(ys.max())
         rows['flux'].append(data[ys, xs].sum())
         mxx, myy, mxy = (w * (xs - xc) ** 2).sum(), (w * (ys - yc) ** 2).sum(), (w * (xs - xc) * (ys - yc)).sum()
-        rows['orientation'].append(np.degrees(0.5 * np.arctan2(2 * mxy, mxx - myy)))
+        th = np.degrees(0.5 * np.arctan2(2 * mxy, mxx - myy))
+        # isotropic second moments (single pixel, ...): the orientation is undefined
+        round_ = math.hypot(2 * mxy, mxx - myy) <= 1e-9 * max(mxx + myy, w.sum())
+        if bug == 'theta-offset' and not round_ and T.kind != 'id':
+            th = th + 5.0
+        if bug == 'theta-round-rows-differ' and round_:
+            th = 17.0 if T.kind == 'id' else 63.0
+        rows['orientation'].append(th)
+        rows['_round'].append(round_)
         m = np.array([[(w * (ys - ys.min()) ** i_ * (xs - xs.min()) ** j_).sum() for j_ in range(3)] for i_ in range(3)])
         rows['moments'].append(m)
         # a measurement that looks 12 px to the left of the segment (zero padding changes it)
@@ -60,8 +69,10 @@ def toy(S, T, bug=None):
         else:
             x0 = xs.min() - 12
             rows['edge_flux'].append(float(data[ys.min(), x0]) if x0 >= 0 else -1.0)
+    round_ = np.array(rows.pop('_round'))
     for k, v in rows.items():
         res.add(k, np.array(v), table=TABLE)
+    res.cols['orientation']['extra']['ambig'] = round_
     res.n = len(rows['flux'])
     res.foot['seg'] = np.ones(res.n, bool)
     edge = []
@@ -103,6 +114,42 @@ def main():
     t0, t1 = toy(S3, Identity()), toy(S3, Shift(13, 0, 0, 0))
     if np.allclose(t0.cols['edge_flux']['v'], t1.cols['edge_flux']['v']):
         fails.append('edge_flux toy does not depend on the padding (self-test is vacuous)')
+    # the scenes: odd segments present with the structure the check relies on; large-scale error gradient
+    for k in range(8):
+        S = make_scene(k, 1)
+        kinds = [o['kind'] for o in S['odd']]
+        if sorted(kinds) != ['diag5', 'masked9', 'neg9', 'pixel1', 'ramp12', 'row4']:
+            fails.append(f'scene {k}: odd segments {kinds}')
+        for o in S['odd']:
+            sel = S['seg'] == o['label']
+            ys, xs = np.nonzero(sel)
+            vals = np.where(sel, S['data'], -np.inf)
+            py, px = np.unravel_index(np.argmax(vals), vals.shape)
+            interior = xs.min() < px < xs.max() and ys.min() < py < ys.max()
+            n33 = int(sel[py - 1:py + 2, px - 1:px + 2].sum())
+            ok = {'diag5': sel.sum() == 5 and interior and n33 < 6,
+                  'pixel1': sel.sum() == 1,
+                  'row4': sel.sum() == 4 and min(np.ptp(xs), np.ptp(ys)) == 0,
+                  'neg9': sel.sum() == 9 and (S['data'][sel] < 0).all(),
+                  'masked9': sel.sum() == 9 and S['mask'][sel].all(),
+                  'ramp12': sel.sum() == 12 and not interior}[o['kind']]
+            if not ok:
+                fails.append(f'scene {k}: odd segment {o["kind"]} lost its structure')
+            if min(xs.min(), ys.min(), S['shape'][1] - 1 - xs.max(), S['shape'][0] - 1 - ys.max()) < 10:
+                fails.append(f'scene {k}: odd segment {o["kind"]} closer than 10 px to the border')
+        e = S['error']
+        if not (e[-8:, -8:].min() > 1.5 * e[:8, :8].max() and (e > 0).all()):
+            fails.append(f'scene {k}: error map has no large-scale gradient')
+    # orientation ambiguity: rows with isotropic moments accept any angle, all other rows do not
+    S = make_scene(0, 0)
+    for T in (Shift(2, 7, 4, 6), Transpose()):
+        keys, stats = run(S, T, 'theta-round-rows-differ')
+        if keys or not stats['orientation_values_ambiguous']:
+            fails.append(f'undefined orientation of an isotropic row flagged / not counted: {keys}')
+    for T in (Shift(2, 7, 4, 6), Transpose()):
+        keys, _ = run(S, T, 'theta-offset')
+        if f'{T.kind}:value|toy.orientation' not in keys:
+            fails.append('wrong orientation of an elongated row not flagged')
     # classic slips must be caught
     S = make_scene(0, 0)
     want = {'origin-swapped': [Shift(1, 0, 4, 6), Shift(2, 7, 4, 6)], 'relative': [Shift(1, 0, 0, 0)],
